@@ -421,6 +421,60 @@ def main():
     for case, got, a in zip(meta, impl, ask_chunked(drv, reqs)):
         a = parse_sx(a)
         run.corr("vmap_linear(to_module)", case, got, a if a[0] != "err" else ["err"])
+    # ... and a module with a NESTED parameter tensordict: Sequential(Linear(nin, hid), Linear(hid, nout))
+    reqs, impl, meta = [], [], []
+    combos = [(B, hid, nout, nin, pin, xin, o) for B in (1, 2, 3) for hid in (1, 2) for nout in (1, 2) for nin in (2,) for pin in (0, -1, None)
+              for xin in (None, 0, 1, -2) for o in (0, 1, -1) if not (pin is None and xin is None)]
+    if quick:
+        combos = rng.sample(combos, 100)
+    for (B, hid, nout, nin, pin, xin, o) in combos:
+        net = torch.nn.Sequential(torch.nn.Linear(nin, hid), torch.nn.Linear(hid, nout)).double()
+        own = list(net.parameters())
+        pb = () if pin is None else (B,)
+        def ar(start, shape):
+            n = 1
+            for d in shape:
+                n *= d
+            return torch.arange(start, start + n, dtype=torch.float64).reshape(shape)
+        params = TensorDict({"0": TensorDict({"weight": ar(1, pb + (hid, nin)), "bias": ar(50, pb + (hid,))}, batch_size=pb),
+                             "1": TensorDict({"weight": ar(2, pb + (nout, hid)), "bias": ar(70, pb + (nout,))}, batch_size=pb)}, batch_size=pb)
+        if rng.random() < 0.4:
+            params.lock_()
+        xshape = (nin,) if xin is None else ((B, nin) if xin in (0, -2) else (nin, B))
+        x = ar(10, xshape)
+        def call(p, xx, net=net):
+            with p.to_module(net):
+                return net(xx)
+        case = {"module": "Sequential(Linear,Linear)", "B": B, "hid": hid, "out": nout, "in": nin, "params_in_dim": pin, "x_in_dim": xin, "out_dim": o, "locked": params.is_locked}
+        try:
+            with time_limit(30):
+                r = torch.vmap(call, in_dims=(pin, xin), out_dims=o)(params, x)
+            got = [list(r.shape), [int(v) for v in r.reshape(-1).tolist()]]
+        except TimeoutError:
+            raise
+        except Exception:
+            got = ["err"]
+        try:
+            outs = [call(params if pin is None else params[k], x if xin is None else x.select(xin, k)) for k in range(B)]
+            r = torch.stack(outs, o if o >= 0 else o + 2)
+            ref = [list(r.shape), [int(v) for v in r.reshape(-1).tolist()]]
+        except Exception:
+            ref = ["err"]
+        run.case(("vmap_seq2", str(case)), nontrivial=got[0] != "err")
+        run.count("module.outcome", "seq2-ok" if got[0] != "err" else "seq2-err")
+        now = list(net.parameters())
+        if got != ref:
+            run.oracle_fail("module_vs_loop", case, f"vmap={str(got)[:150]} loop={str(ref)[:150]}", fingerprint="module_seq2")
+        elif len(now) != len(own) or any(a_ is not b_ for a_, b_ in zip(now, own)):
+            run.oracle_fail("module_vs_loop", case, "the module was not left with its own parameters after the vmapped functional call", fingerprint="module_restore")
+        else:
+            run.oracle_ok("module_vs_loop")
+        reqs.append(sx("c19.vmap_seq2", B, hid, nout, nin, pin, xin, o))
+        impl.append(got)
+        meta.append(case)
+    for case, got, a in zip(meta, impl, ask_chunked(drv, reqs)):
+        a = parse_sx(a)
+        run.corr("vmap_seq2(to_module, nested params)", case, got, a if a[0] != "err" else ["err"])
 
     # ------------------------------------------------------------------ 3b. lazily stacked tensordicts: the lazy code path of the model vs the real library
     lz_cases = []
